@@ -3,6 +3,7 @@ from vf import loader
 from vf.core import Clause, Outcome, Violation, require, np_scalars, with_np, with_sk, round_trip, COPIES
 from vf.estimators import CentroidClassifier, SkewedClassifier
 
+import math
 import numpy as np
 from hypothesis import strategies as st
 from sklearn.linear_model import LogisticRegression
@@ -95,6 +96,24 @@ def check(case):
     classes = list(m.classes_)
     require(len(classes) == 2 and set(classes) == set(y.tolist()), "classes_", "%r" % (classes,), facts)
     nn = int(m.n_nodes_)
+    # probes a hair away from a node's border (2e-8 .. 6e-8 relative, on both sides): float64 rows that a float32 copy would move across
+    probes = []
+    root0 = getattr(m, "tree_", None)
+    for nd in ([root0] + [getattr(root0, a, None) for a in ("above", "below")]) if root0 is not None else []:
+        est_ = getattr(nd, "estimator", None)
+        thr = getattr(nd, "threshold", None)
+        if est_ is None or not hasattr(est_, "coef_") or thr is None or not (0 < float(thr) < 1):
+            continue
+        wv = np.asarray(est_.coef_, dtype=np.float64).ravel()
+        if wv.shape != (d,) or not np.all(np.isfinite(wv)) or float(wv @ wv) < 1e-12:
+            continue
+        c = math.log(float(thr) / (1 - float(thr))) - float(np.asarray(est_.intercept_).ravel()[0])
+        for x0 in X[:2]:
+            xb = x0 + (c - float(wv @ x0)) / float(wv @ wv) * wv
+            step = 2e-8 * max(1.0, float(np.abs(xb).max())) / math.sqrt(float(wv @ wv))
+            probes.extend([xb + k * step * wv for k in (-3, -1, 1, 3)])
+    if probes and case.get("border_probes", True):
+        Q = np.vstack([Q, np.array(probes)])
     if case.get("warmup", True) and len(Q) >= 2:
         # the batch object was already used for another content (reversed rows), then edited in place: the clauses below are stated for
         # what the array holds NOW, whatever the same object held at an earlier call
@@ -168,7 +187,7 @@ def check(case):
     nreal = n_nodes_real if n_nodes_real is not None else len(set(np.nonzero(DPd)[1].tolist()))
     labels = [case["base"], "algo=" + str(o["fit_improve_algo"]), "nodes=1" if nreal == 1 else ("nodes=2" if nreal == 2 else ("nodes<=6" if nreal <= 6 else "nodes>6")),
               "structural-" + structural, "labels=" + case["label_kind"], "ambiguous-rows" if ambiguous else "no-ambiguous-row",
-              "via-copy:" + str(case.get("via_copy") or "none")]
+              "via-copy:" + str(case.get("via_copy") or "none"), "border-probes" if probes else "no-border-probe"]
     return Outcome(labels, nreal >= 3)
 
 
